@@ -102,6 +102,11 @@ def run_seg(c):
         qs.append(np.append(dirn, 0.0))
         truth.append(True)
         cls.append("ray-infinite-endpoint")
+        # the same point at infinity given by other representatives (projectively the end point of the ray)
+        for k_ in (-1.0, -2.5, 3.0):
+            qs.append(np.append(dirn * k_, 0.0))
+            truth.append(True)
+            cls.append("ray-infinite-endpoint-other-representative")
     qs = np.array(qs)
     truth = np.array(truth)
     fails = []
@@ -123,7 +128,7 @@ def run_seg(c):
                 break
             if bool(r) != bool(truth[i]) and len(fails) < 4:
                 fails.append((mismatch(f"{site0}:single:{cls[i]}", (qs[i].tolist(), bool(truth[i]))), c))
-    nt = sum(1 for x in cls if x in ("endpoint", "extension", "ray-origin", "ray-extension", "ray-infinite-endpoint", "infinite-point-of-line"))
+    nt = sum(1 for x in cls if x in ("endpoint", "extension", "ray-origin", "ray-extension", "ray-infinite-endpoint", "ray-infinite-endpoint-other-representative", "infinite-point-of-line"))
     labels = {}
     for x in set(cls):
         labels[x] = cls.count(x)
